@@ -3,7 +3,8 @@
 k_groups: list of dicts {module, harnesses:[(name, kind)], tier    'C14': {
         'title': 'Layout trivia never changes results and diagnostics track source positions',
         'v_units': ['source_manager', 'token_stream'],
-        'k_groups': [],
+        # API-driven bounded harness: keeps deciding (and gives a concrete input) when get_file_location is rewritten
+        'k_groups': [{'module': 'text/location.rs', 'harnesses': [('c14_get_file_location_bounded', 'bounded:2 files of <= 3 and <= 2 bytes, 2 queries')], 'tier': 'quick'}],
         'design_ref': 'DESIGN.md §3 C14',
     },
     'C19': {
@@ -39,13 +40,14 @@ PROPS = {
     'C10': {
         'title': 'Lexing is lossless and numeric literals are exact',
         'v_units': ['lexer_digits', 'token_stream', 'source_manager'],
-        'k_groups': [],
+        'k_groups': [{'module': 'text/location.rs', 'harnesses': [('c10_location_table_inverse_bounded', 'bounded:2 files of <= 3 and <= 2 bytes')], 'tier': 'quick'}],
         'design_ref': 'DESIGN.md §3 C10',
     },
     'C11': {
         'title': 'Conditional compilation selects exactly the branches C semantics select',
         'v_units': ['cond_chain', 'cond_parser'],
-        'k_groups': [],
+        # discharges the assumed is_active contract on the real function and survives representation changes (21 min: thorough only)
+        'k_groups': [{'module': 'preprocess/preprocess.rs', 'harnesses': [('c11_condition_chain_sequence_bounded', 'bounded:operation sequences of length 5')], 'tier': 'thorough'}],
         'design_ref': 'DESIGN.md §3 C11',
     },
     'C01': {
@@ -80,7 +82,8 @@ PROPS = {
     'C14': {
         'title': 'Layout trivia never changes results and diagnostics track source positions',
         'v_units': ['source_manager', 'token_stream'],
-        'k_groups': [],
+        # API-driven bounded harness: keeps deciding (and gives a concrete input) when get_file_location is rewritten
+        'k_groups': [{'module': 'text/location.rs', 'harnesses': [('c14_get_file_location_bounded', 'bounded:2 files of <= 3 and <= 2 bytes, 2 queries')], 'tier': 'quick'}],
         'design_ref': 'DESIGN.md §3 C14',
     },
     'C19': {
